@@ -178,3 +178,53 @@ Proof.
         apply IH; [exact Hrest|]. pose proof (f_equal (@length byte) Eb) as Hlen. rewrite app_length in Hlen.
         assert (0 < length (l ++ term_bytes term t))%nat by (destruct t; cbn [term_bytes]; rewrite app_length; cbn; try lia; congruence). lia.
 Qed.
+
+(** * the framing does not depend on how the source hands out its bytes *)
+Lemma read_until_app_found term : forall a b, has_term term a = true ->
+  read_until term (a ++ b) = (fst (read_until term a), snd (read_until term a) ++ b).
+Proof.
+  induction a as [|x a IH]; intros b H; [discriminate|]. cbn [has_term existsb] in H. cbn [app read_until].
+  destruct (x =? term)%N eqn:E; [reflexivity|]. cbn [orb] in H. rewrite (IH b H).
+  destruct (read_until term a) as [r1 r2]. reflexivity.
+Qed.
+Lemma read_until_app_notfound term : forall a b, has_term term a = false ->
+  read_until term (a ++ b) = (a ++ fst (read_until term b), snd (read_until term b)).
+Proof.
+  induction a as [|x a IH]; intros b H; [cbn; destruct (read_until term b); reflexivity|].
+  cbn [has_term existsb] in H. apply orb_false_iff in H as [E H]. cbn [app read_until]. rewrite E, (IH b H). reflexivity.
+Qed.
+
+Lemma read_until_chunks_spec term : forall chunks, Forall (fun c => c <> []) chunks ->
+  read_until term (concat chunks) =
+    (fst (read_until_chunks term chunks), concat (snd (read_until_chunks term chunks))) /\
+  Forall (fun c => c <> []) (snd (read_until_chunks term chunks)).
+Proof.
+  induction chunks as [|c cs IH]; intros F; [split; [reflexivity | constructor]|].
+  inversion F as [|c' cs' Hc Fcs]; subst. specialize (IH Fcs) as [IH1 IH2].
+  cbn [concat read_until_chunks]. destruct (has_term term c) eqn:Ht.
+  - rewrite (read_until_app_found term c (concat cs) Ht). destruct (read_until term c) as [rec rest]. cbn [fst snd].
+    destruct rest as [|r0 rest]; [split; [reflexivity | exact Fcs]|].
+    split; [reflexivity | constructor; [discriminate | exact Fcs]].
+  - rewrite (read_until_app_notfound term c (concat cs) Ht), IH1.
+    destruct (read_until_chunks term cs) as [rec' cs2]. cbn [fst snd] in *. split; [reflexivity | exact IH2].
+Qed.
+
+Lemma records_chunks_go_spec term : forall fuel chunks, Forall (fun c => c <> []) chunks ->
+  (length (concat chunks) < fuel)%nat ->
+  records_chunks_go fuel term chunks = records_go fuel term (concat chunks).
+Proof.
+  induction fuel as [|f IH]; intros chunks F L; [lia|]. cbn [records_chunks_go records_go].
+  destruct chunks as [|c cs]; [reflexivity|].
+  destruct (read_until_chunks_spec term (c :: cs) F) as [E F2].
+  assert (NE : concat (c :: cs) <> []).
+  { inversion F as [|c' cs' Hc _]; subst. cbn [concat]. destruct c; [congruence | discriminate]. }
+  pose proof (read_until_rest_len term (concat (c :: cs)) NE) as RL. rewrite E in *. cbn [snd] in RL.
+  destruct (concat (c :: cs)) as [|b0 bs0] eqn:EC; [congruence|].
+  destruct (read_until_chunks term (c :: cs)) as [rec cs2]. cbn [fst snd] in *.
+  f_equal. apply IH; [exact F2 | lia].
+Qed.
+
+(** whatever the pieces: the records are those of the whole stream *)
+Lemma records_chunks_spec term chunks : Forall (fun c => c <> []) chunks ->
+  records_chunks term chunks = records term (concat chunks).
+Proof. intros F. unfold records_chunks, records. apply records_chunks_go_spec; [exact F | lia]. Qed.
